@@ -23,20 +23,36 @@ RULE = ('flowsheets of real thermosteam.network.AbstractUnit subclasses joined b
         'random flowsheets: chains with k staggered / nested / overlapping returns, fans, staggered loops inside an outer loop, '
         'ladders (cyclic and acyclic), each with the feedstock entering at the upstream end, the downstream end, both, or the '
         'middle; every ordering of the unit list for n<=3 and for the chained-loop families at n=4 (quick) / n<=5 (thorough). '
-        'kind=sort: '
+        'During every from_units run the final Network.sort (nested path: tree before, ends, PathSource sets, tree after, '
+        'warning) and every surgery call that is not nested in another modelled one (join_linear_network, '
+        'join_recycle_network, _insert_linear_network, _append_linear_network, ...: receiver with its `units` attribute, '
+        'arguments, resulting tree or ValueError, observed recycle_sink of recycle sets) are recorded and replayed on the '
+        'Coq models; `units` = units of the path and no duplicate unit are evaluated on every step result. kind=nsort: a '
+        'from_units result with every level shuffled, sorted again by the real Network.sort with the recycle ends or a '
+        'random set of cut streams. Extra families clover / interlock (loops merged into an inserted loop). kind=sort: '
         'Network(path).sort(ends) on a random permutation of a (sub)set of the units with a random set of cut streams, '
         'compared with the Coq model (exact order, stop flag = no warning, recycle set, PathSource.units of every item). '
         'non-trivial = sort changed the order or reported a recycle / from_units result has >= 3 units; distinct = distinct case hash')
 ASSUMPTIONS = ['reach is a strict partial order in the sort theorems: holds whenever the streams not in `ends` form no cycle '
                '(get_downstream_units computes a transitive closure); non-vacuity Example on a concrete DAG',
-               'the path-finding / joining phase of from_units (fill_path, join_*) is validated per instance by the verified '
-               'checker, not proved for all graphs',
+               'fill_path / simplified_linear_paths / reduce_recycles / join_network_at_unit / _append_network have no model; '
+               'the surgery theorems assume receivers and arguments whose `units` equals the units of their path (checked '
+               'on every recorded step); "each unit once" after surgery is evaluated per step, not proved (it is false '
+               'without facts about the paths fill_path produces: Example C19_surgery_once_needs_path_facts)',
+               'nested sort theorems: tree_strictb (downstream_from is a strict partial order on the items of every level) '
+               'is decidable and is the hypothesis; Network.units of a sub-network is taken to be the units of its path '
+               '(asserted by the harness on every observed sort)',
                'no unit is `_universal` or `_interaction`, no auxiliary units, no marked disjunctions, feed priorities unset']
 TRUSTED = ['model coq/C19/Model.v (split_first/sweep/sort_loop, dloop) is hand-written from thermosteam/network.py:2419-2455 and '
            ':1740-1766, :2100-2117; tie = correspondence check',
            'model of the loop-join order (pick/join_loops) is hand-written from the `while recycle_networks` block of '
            'Network.from_feedstock; join_recycle_network is abstracted to "raises iff the loop shares no unit with the network, '
            'else network.units becomes the union" and that abstraction is compared with the observed calls on every case',
+           'models of Network.sort on nested paths (down_item, item_reach, item_direct, sort_tree) and of the path surgery '
+           '(remove_overlap ... insert_recycle) are hand-written from network.py; tie = step-by-step replay of recorded calls; '
+           'recycle_sink of a recycle *set* is an observed oracle (Python set iteration order)',
+           'the harness wraps Network methods (sort, surgery methods, recycle_sink) and find_linear_and_cyclic_paths_with_recycle '
+           'at run time to record calls; the wrappers call the original and restore it afterwards',
            'encoding of the observed Network tree and of the flowsheet graph into Gallina (props/C19.py: ctree, cedges)',
            'cycle witness search and acyclicity test in the harness are untrusted: the checker validates the witness and '
            'derives acyclicity itself']
